@@ -32,6 +32,8 @@ AllRules == {"C02.NoPanic", "C02.Json", "C02.Total", "C02.TotalHM", "C02.Now", "
              "C20.NoPanic", "C20.WellFormed", "C20.Record", "C20.Arithmetic", "C20.Filtered",
              "X.Warn"}
 RuleNames == {r \in AllRules : \E p \in Prefixes : StartsWith(r, p)}
+(* a selection that matches no rule would make the validation vacuous *)
+ASSUME RuleNames # {}
 
 RunsWith(o, prefix) == SelectSeq(o.runs, LAMBDA r : StartsWith(r.id, prefix))
 RunById(o, id) == LET s == SelectSeq(o.runs, LAMBDA r : r.id = id) IN s[1]
